@@ -104,7 +104,7 @@ def digest32(text):
     return hashlib.sha256(text.encode()).hexdigest()[:32]
 
 
-EXT = {'json': 'json', 'list': 'json', 'str': 'json', 'int': 'json', 'gen': 'jsonl', 'lazy': 'jsonl', 'npy': 'npy',
+EXT = {'json': 'json', 'list': 'json', 'str': 'json', 'int': 'json', 'gen': 'jsonl', 'gen0': 'jsonl', 'lazy': 'jsonl', 'npy': 'npy',
        'pd': 'pd', 'dir': None, 'cont': None, 'listnpy': None}
 
 
